@@ -1,11 +1,13 @@
-"""C01 — every real value has one canonical representation (core closure + result monitor)."""
-from props import _core
+"""C01 — every real value has one canonical representation (core closure + result monitor + API sweep)."""
+from props import _core, _api
 import core_ops
 
 LEVEL = "proof"
 LEAN_MODULES = ["Props.C01"]
-ASSUMPTIONS = ["theorems cover the modelled libmpf core; results of the rest of the public API are monitored, not proved"]
+ASSUMPTIONS = ["theorems cover the modelled libmpf core; results of the rest of the public API are monitored by a sampling sweep "
+               "(every public callable of mp and iv, MPMATH_STRICT=Y in the workers), not proved"]
 
 
 def run(ctx):
-    return _core.run_core(ctx, core_ops.ALL_CORE_OPS, 120000, 3000000, monitors=("canonical",))
+    res = _core.run_core(ctx, core_ops.ALL_CORE_OPS, 120000, 3000000, monitors=("canonical",))
+    return _api.add_sweep(ctx, res, "C01")
